@@ -22,50 +22,97 @@ open Geo Geo.Tri Geo.Mono Geo.Tiling
 /-! ### ear-cut glue (`earcut_indices`) -/
 
 /-- [T] the vertex array handed to the ear-cut routine is the flattened `coords_iter` of the
-polygon: exterior first, then the interiors in order, `x` then `y` of every coordinate. -/
-theorem earcut_vertices (p : Poly) : (polygonToEarcutInput p).vertices = flat p.coords := by
-  have := earcut_fold p.ext [] p.ints []
+polygon with every run of repeated consecutive coordinates of a ring written once (`dedupRings`,
+the `fix:` for repeated vertices): exterior first, then the interiors in order, `x` then `y` of
+every coordinate. -/
+theorem earcut_vertices (p : Poly) : (polygonToEarcutInput p).vertices = flat (dedupRings p).coords := by
+  have := earcut_fold (dedupRings p).ext [] (dedupRings p).ints []
   simp only [List.flatten_nil, List.append_nil, List.nil_append] at this
-  unfold polygonToEarcutInput
+  unfold polygonToEarcutInput earcutInputOf
   rw [flatInto_eq, List.nil_append, this]
   rfl
 
-/-- [T] `vertices.length = 2 · coords_count`. -/
+/-- [T] for a polygon without repeated consecutive coordinates nothing is dropped. -/
+theorem dedupRuns_id (cs : List Pt) (h : cs.IsChain (· ≠ ·)) : dedupRuns cs = cs := by
+  induction cs with
+  | nil => rfl
+  | cons a t ih =>
+    cases t with
+    | nil => rfl
+    | cons b rest =>
+      rw [List.isChain_cons_cons] at h
+      have hab : (a == b) = false := by simpa using h.1
+      simp only [dedupRuns, hab, Bool.false_eq_true, if_false]
+      rw [ih h.2]
+
+/-- [T] every coordinate of a ring survives in the pushed ring, and nothing else is pushed. -/
+theorem dedupRuns_mem (cs : List Pt) (c : Pt) : c ∈ dedupRuns cs ↔ c ∈ cs := by
+  induction cs with
+  | nil => simp [dedupRuns]
+  | cons a t ih =>
+    cases t with
+    | nil => simp [dedupRuns]
+    | cons b rest =>
+      simp only [dedupRuns]
+      split
+      · rename_i hab
+        have : a = b := by simpa using hab
+        subst this
+        rw [ih]; simp
+      · rw [List.mem_cons, ih]; simp
+
+/-- [T] `vertices.length = 2 · coords_count` of the pushed rings (at most `2 · coords_count`). -/
 theorem earcut_vertices_length (p : Poly) :
-    (polygonToEarcutInput p).vertices.length = 2 * coordsCount (.polygon p) := by
+    (polygonToEarcutInput p).vertices.length = 2 * coordsCount (.polygon (dedupRings p)) := by
   rw [earcut_vertices, flat_length]
   simp [coordsCount, Poly.count, Poly.coords, List.length_flatten]
 
-/-- [T] hole start indices: `interior_indexes[k] = |exterior| + Σ_{j<k} |interior_j|`, one per
-interior ring. -/
+/-- [T] hole start indices: `interior_indexes[k] = |exterior| + Σ_{j<k} |interior_j|` (lengths of
+the pushed rings), one per interior ring. -/
 theorem earcut_interior_indexes (p : Poly) :
     (polygonToEarcutInput p).interiorIndexes =
-      (List.range p.ints.length).map (fun k => p.ext.length + ((p.ints.take k).map List.length).sum) := by
-  have := earcut_fold p.ext [] p.ints []
+      (List.range p.ints.length).map (fun k =>
+        (dedupRings p).ext.length + (((dedupRings p).ints.take k).map List.length).sum) := by
+  have := earcut_fold (dedupRings p).ext [] (dedupRings p).ints []
   simp only [List.flatten_nil, List.append_nil, List.nil_append, List.map_nil, List.sum_nil,
     Nat.add_zero] at this
-  unfold polygonToEarcutInput
+  unfold polygonToEarcutInput earcutInputOf
   rw [flatInto_eq, List.nil_append, this]
+  simp [dedupRings]
 
 example : (polygonToEarcutInput ⟨[⟨0,0⟩,⟨4,0⟩,⟨4,4⟩,⟨0,0⟩], [[⟨1,1⟩,⟨2,1⟩,⟨2,2⟩,⟨1,1⟩], [⟨3,1⟩,⟨3,2⟩,⟨2,3⟩,⟨3,1⟩]]⟩).interiorIndexes
     = [4, 8] := by decide
 
-/-- [T] `triangle_index_to_coord i` is the `i`-th coordinate of `coords_iter` (and out of range
-exactly when `i ≥ coords_count`). -/
+/-- a repeated vertex is pushed once: the hole of the example starts at 4, not 5 -/
+example : (polygonToEarcutInput ⟨[⟨0,0⟩,⟨0,0⟩,⟨4,0⟩,⟨4,4⟩,⟨0,0⟩], [[⟨1,1⟩,⟨2,1⟩,⟨2,1⟩,⟨2,2⟩,⟨1,1⟩]]⟩) =
+    ⟨[0,0,4,0,4,4,0,0,1,1,2,1,2,2,1,1], [4]⟩ := by decide
+
+/-- [T] `triangle_index_to_coord i` is the `i`-th coordinate of `coords_iter` of the pushed rings
+(and out of range exactly when `i` is at least their `coords_count`). -/
 theorem earcut_index_to_coord (p : Poly) (i : Nat) :
-    indexToCoord (polygonToEarcutInput p).vertices i = p.coords[i]? := by
+    indexToCoord (polygonToEarcutInput p).vertices i = (dedupRings p).coords[i]? := by
   rw [earcut_vertices, indexToCoord_flat]
 
 /-- [T] for every index vector with in-range indices (whatever the engine returns) decoding does
 not panic, yields `indices.length / 3` triangles, and every triangle corner is a polygon
 coordinate. -/
-theorem earcut_corners_are_vertices (p : Poly) (idx : List Nat) (h : ∀ i ∈ idx, i < p.coords.length) :
+theorem earcut_corners_are_vertices (p : Poly) (idx : List Nat)
+    (h : ∀ i ∈ idx, i < (dedupRings p).coords.length) :
     ∃ ts, earcutTriangles (polygonToEarcutInput p).vertices idx = some ts ∧
       ts.length = idx.length / 3 ∧ ∀ t ∈ ts, t.1 ∈ p.coords ∧ t.2.1 ∈ p.coords ∧ t.2.2 ∈ p.coords := by
   unfold earcutTriangles
   rw [earcut_vertices]
-  have := decodeRev_spec p.coords idx.length idx.reverse (by simp) (fun i hi => h i (by simpa using hi))
-  simpa using this
+  have := decodeRev_spec (dedupRings p).coords idx.length idx.reverse (by simp)
+    (fun i hi => h i (by simpa using hi))
+  have hsub : ∀ c, c ∈ (dedupRings p).coords → c ∈ p.coords := by
+    intro c hc
+    simp only [Poly.coords, dedupRings, List.mem_append, List.mem_flatten, List.mem_map] at hc ⊢
+    rcases hc with hc | ⟨l, ⟨r, hr, rfl⟩, hc⟩
+    · exact Or.inl ((dedupRuns_mem _ _).1 hc)
+    · exact Or.inr ⟨r, hr, (dedupRuns_mem _ _).1 hc⟩
+  obtain ⟨ts, h1, h2, h3⟩ := this
+  refine ⟨ts, h1, by simpa using h2, fun t ht => ?_⟩
+  exact ⟨hsub _ (h3 t ht).1, hsub _ (h3 t ht).2.1, hsub _ (h3 t ht).2.2⟩
 
 /-- [T] the triangles come out in reverse: the first triangle is made of the *last* three
 indices, last index first. -/
